@@ -1,6 +1,7 @@
 """C06 - encryption artifacts are mutually consistent and decrypt to the firmware (DESIGN.md section 5, C06)."""
 import hashlib
 import os
+import zlib
 import shutil
 
 from Crypto.Cipher import AES
@@ -56,6 +57,7 @@ def embed_check(rec, info_path, info, wd, full):
                           observed={"param": node.raw if node is not None else None, "info": info})
 
 
+_leftover = {}
 KEY_NAMES = ["fw_key_0", "fw_key_1", "fw_key_0.v2", "fw_key_2", "fw.enc.key", "app.core"]
 
 
@@ -83,6 +85,12 @@ def case_encrypt(rec, case):
     fw = drive.fresh(wd, ".bin")
     with open(fw, "wb") as fh:
         fh.write(pt)
+    if _leftover and zlib.crc32(f"leftover/{case['n']}".encode()) % 4 == 0 and route != "plugin":
+        # the output directory still holds the complete artifact set of an EARLIER encryption (other firmware, key,
+        # key id, hash algorithm), dated in the future: an "up to date" shortcut or a merge must not keep any of it
+        for n_, b in _leftover.items():
+            drive.make_stale(os.path.join(outdir, n_), b, future=True)
+        rec.count("output-directory-holds-artifacts-of-an-earlier-run")
     rec.count("route:" + route)
     rec.count("alg:" + alg)
     rec.count("kid-width:" + str(len(mcbor.enc(kid))))
@@ -111,6 +119,10 @@ def case_encrypt(rec, case):
         v, iv = X.check_artifacts(outdir, key, kid, pt, alg)
         for mech, text in v:
             rec.violation(mech, text, full)
+        if not v:
+            for n_ in ("plain_text_digest.bin", "plain_text_size.txt", "suit_encryption_info.bin", "encrypted_content.bin"):
+                with open(os.path.join(outdir, n_), "rb") as fh:
+                    _leftover[n_] = fh.read()
         if not v and case["n"] % 4 == 0:
             ip = os.path.join(outdir, "suit_encryption_info.bin")
             with open(ip, "rb") as fh:
